@@ -495,9 +495,6 @@ fn judge(idx: u64, case: &Case, font: &Font, hy: &boxworks_hyphenate::Hyphenator
     };
     let v = check_list(&before, &after, font, lang, case.lhm, case.rhm, acc);
     if v.out_of_domain {
-        if case.program.is_empty() && std::env::var("C14_DEBUG_SKIP").is_ok() {
-            eprintln!("SKIP {:?} {} ({},{}) {}", case.text, case.patterns, case.lhm, case.rhm, show(&before));
-        }
         acc.skipped += 1;
         acc.count("skipped_word_followed_by_punctuation_ligature");
         acc.class("skipped: word followed by a ligature with a non-letter that interacts with the word's end");
